@@ -3,13 +3,15 @@
 import json, os, shutil, subprocess, sys
 HERE = os.path.dirname(os.path.dirname(os.path.abspath(__file__)))
 pid = sys.argv[1]
-src = f"/tmp/mut/{pid}_out"
-base = subprocess.run(["git", "-C", f"/tmp/mut/{pid}", "rev-parse", "--short", "HEAD"], capture_output=True, text=True).stdout.strip()
+rnd = sys.argv[2] if len(sys.argv) > 2 else ""          # "" = round 1, "w2" = round 2
+src = f"/tmp/mut/{pid}_{rnd}out" if rnd else f"/tmp/mut/{pid}_out"
+wt = f"/tmp/mut/{pid}_{rnd}" if rnd else f"/tmp/mut/{pid}"
+base = subprocess.run(["git", "-C", wt, "rev-parse", "--short", "HEAD"], capture_output=True, text=True).stdout.strip()
 for k in sorted(os.listdir(src)):
     d = os.path.join(src, k)
     if not (os.path.isdir(d) and os.path.exists(os.path.join(d, "patch.diff"))):
         continue
-    dst = os.path.join(HERE, "seeded", f"{pid}_{k}")
+    dst = os.path.join(HERE, "seeded", f"{pid}_{rnd}{k}" if rnd else f"{pid}_{k}")
     os.makedirs(dst, exist_ok=True)
     for f in ("patch.diff", "demo.py", "meta.json"):
         if os.path.exists(os.path.join(d, f)):
@@ -21,6 +23,7 @@ for k in sorted(os.listdir(src)):
         meta = {}
     meta.setdefault("property", pid)
     meta["base"] = base
-    meta["origin"] = "independent sub-agent given only the property text and a scratch worktree of /repo"
+    meta["origin"] = ("independent sub-agent given only the property text and a scratch worktree of /repo"
+                      + (" (round 2: asked for cooperating edits, call sequences, Python subtleties, rare branches)" if rnd else ""))
     json.dump(meta, open(mp, "w"), indent=1)
     print("imported", dst)
